@@ -118,6 +118,24 @@ func (s *seriesCursor) ReInitWithShard(tagSet tsi.TagSet, sidIdx, shardIdx int, 
 		if err != nil {
 			return false, err
 		}
+	} else if s.isTsmCursorNil() {
+		// The series this cursor was created for had no data file within the time range (only
+		// memtable rows), so it carries no file cursor. The series it is reused for may have one:
+		// without it their flushed rows would be skipped.
+		var tsmCursor *tsmMergeCursor
+		if !crossShard {
+			tsmCursor, err = newTsmMergeCursor(s.ctx, sid, filter, rowFilters, ptTags, false, s.span)
+		} else {
+			tsmCursor, err = newTsmMergeCursorWithShard(s.ctx, shardId, sid, filter, rowFilters, ptTags, s.span)
+		}
+		if err != nil {
+			return false, err
+		}
+		if tsmCursor != nil {
+			tsmCursor.SetOps(s.ops)
+			s.tsmCursor = tsmCursor
+			contain = true
+		}
 	}
 	if !contain && memTableRecord == nil {
 		return false, nil
